@@ -201,14 +201,14 @@ def run(res, a):
         # round trip of the exported text
         if o.get("strerr"):
             viol.append(("export", "ExportString fails for %r" % s, s))
-        elif o.get("reerr") or (o.get("retype"), o.get("rebits"), o.get("re")) != (o["type"], o["bits"], o["bin"]):
+        elif o.get("reerr") or (o.get("retype"), o.get("rebits"), o.get("re")) != (o["type"], o.get("bits", 0), o.get("bin", "")):
             key = None
-            if o["type"] == "unsigned" and o["bits"] != 64 and o.get("retype") == "unsigned" and o.get("re") == o["bin"]:
+            if o["type"] == "unsigned" and o.get("bits", 0) != 64 and o.get("retype") == "unsigned" and o.get("re") == o.get("bin", ""):
                 key = "c08_sized_unsigned_export_drops_width"
             if o["type"] == "float32" and o.get("retype") == "float32":
                 key = "c08_float32_export_20_decimals"
             text = "import(export(%r)) = %s/%s/%s, expected %s/%s/%s (exported text %r)" % (
-                s, o.get("retype"), o.get("rebits"), o.get("re") or o.get("reerr"), o["type"], o["bits"], o["bin"], o.get("str"))
+                s, o.get("retype"), o.get("rebits"), o.get("re") or o.get("reerr"), o["type"], o.get("bits", 0), o.get("bin", ""), o.get("str"))
             if key in known:
                 res.known_finding("%s %s" % (key, text))
             else:
@@ -217,8 +217,8 @@ def run(res, a):
             viol.append(("nbits", "ExportBinaryNBits(%d) of %r has %d digits" % (q["n"], s, len(o.get("nbits", ""))), s))
         vb = o.get("vbin", "")
         mm = re.fullmatch(r"([0-9]+)'b([01]+)", vb)
-        if not mm or int(mm.group(1)) != o["bits"] or len(mm.group(2)) != o["bits"]:
-            viol.append(("verilog", "ExportVerilogBinary of %r is %r for a %d-bit number" % (s, vb, o["bits"]), s))
+        if not mm or int(mm.group(1)) != o.get("bits", 0) or len(mm.group(2)) != o.get("bits", 0):
+            viol.append(("verilog", "ExportVerilogBinary of %r is %r for a %d-bit number" % (s, vb, o.get("bits", 0)), s))
     # fixed point literals against an independent reading: 0fp<s.f>v with v = k / 2^f denotes the s-bit pattern of k
     fx = []
     for (sb, fb) in [(6, 2), (8, 4), (12, 4), (16, 8), (24, 8), (32, 16)]:
